@@ -567,10 +567,13 @@ def oracles_c13(res, case, o):
                 if img.setdefault(a, b) != b:
                     fail("a plate was split by a merge smoother", a, "plates only merge")
                     break
-            samp = {}
-            for b, x in zip(pout, smp):
-                if samp.setdefault(b, x) != x:
-                    fail("plates of different samples were merged", {"plate": b, "samples": [samp[b], x]}, "same sample")
+            srcs, samp = {}, {}
+            for a, b, x in zip(pin, pout, smp):
+                srcs.setdefault(b, set()).add(a)
+                samp.setdefault(b, set()).add(x)
+            for b in srcs:
+                if len(srcs[b]) > 1 and len(samp[b]) > 1:
+                    fail("plates of different samples were merged", {"plate": b, "samples": sorted(samp[b])}, "same sample")
                     break
         if op == "sm-mergemin":
             k = p["k"]
